@@ -175,12 +175,17 @@ theorem go_to_other_tree_rej (u v : Loc) (h : u.tree.id ≠ v.tree.id) : goTo u 
 example : exTree.id ≠ exTree2.id ∧ goTo ⟨exTree, [0]⟩ ⟨exTree2, [0]⟩ = none := by decide
 
 /-- `diameter` (the nonlocal-maximum recursion with `heapq.nlargest(2, …)`) = the maximum, over
-    the nodes of the subtree, of the sum of the two largest child heights; the BinaryNode version
-    that skips empty slots computes the same number as on the generic view. -/
+    the nodes of the subtree, of the sum of the two largest child heights (`diamSpec`); the
+    BinaryNode version that skips empty slots computes the same number as on the generic view.
+    `top2Sum` (sum of the first two entries of the list sorted in descending order) is pinned
+    down independently of any sorting: adding an entry `x` to a list changes it to the larger of
+    the old value and `x` + the list's maximum. -/
 theorem diameter_eq :
     (∀ t : Tree, diameter t = diamSpec t) ∧
-    (∀ (b : BTree) (t : Tree), b.toTrees = [t] → diameterB b = diamSpec t) :=
-  ⟨diameter_eq_diamSpec, fun b t h => by rw [diameterB_eq b t h, diameter_eq_diamSpec]⟩
+    (∀ (b : BTree) (t : Tree), b.toTrees = [t] → diameterB b = diamSpec t) ∧
+    (top2Sum [] = 0 ∧ ∀ x l, top2Sum (x :: l) = max (top2Sum l) (x + lmax l)) :=
+  ⟨diameter_eq_diamSpec, fun b t h => by rw [diameterB_eq b t h, diameter_eq_diamSpec],
+    top2Sum_nil, top2Sum_cons⟩
 
 example : diameter exWide = 5 ∧ diameter exTree = 4 ∧ diameterB exBin = 1 := by decide
 
